@@ -94,7 +94,7 @@ func (g *gen) transform(skew bool) Val {
 	for i := 0; i < n; i++ {
 		sep := []string{",", " ", ", "}[c.Intn(3)]
 		var f XFn
-		k := c.Intn(9) // skewX/skewY are ordinary functions since c23d8c8
+		k := c.Intn(9) // skewX/skewY are ordinary functions since 3e2eccb
 		if skew && i == 0 {
 			k = 7 + c.Intn(2)
 		}
@@ -256,7 +256,7 @@ func (g *gen) shape() *Node {
 		hpx, _ := dimPx(hv, 0)
 		half := math.Min(wpx, hpx) / 2
 		// radii within half the smaller side: no clamping (clamping differs from SVG 1.1, class rx-ry)
-		// radii up to 1.6 x half the smaller side: each is limited to half its own side (SVG 1.1 9.2, 5c701f0)
+		// radii up to 1.6 x half the smaller side: each is limited to half its own side (SVG 1.1 9.2, c530d1e)
 		rad := func() Val { return Val{K: 'D', Num: math.Max(0.125, float64(int(half*c.Range(0.1, 1.6)*8))/8)} }
 		rk := c.Intn(6)
 		if half < 0.25 {
@@ -442,7 +442,7 @@ func genDocClass(c *hc.Ctx, class string) *Doc {
 	g := &gen{c: c, d: d, cssProps: map[string]bool{}}
 	if class == "dash" || class == "dash-sw" {
 		d.Features["dash"] = true
-		g.noWidth = false // (dash lengths are user units whatever the stroke width since e1e27a7)
+		g.noWidth = false // (dash lengths are user units whatever the stroke width since a9d372e)
 	}
 	isCSS := strings.HasPrefix(class, "css")
 	if isCSS {
@@ -501,7 +501,7 @@ func genDocClass(c *hc.Ctx, class string) *Doc {
 		c.Count("head:none")
 	}
 	if d.VB != nil && (class == "viewbox-origin" || c.Chance(0.3)) {
-		// any origin is ordinary since d46c9ee
+		// any origin is ordinary since 32efa25
 		d.VB[0], d.VB[1] = float64(5+c.Intn(30)), float64(5+c.Intn(30))
 		if c.Bool() {
 			d.VB[0] = -d.VB[0]
@@ -520,7 +520,7 @@ func genDocClass(c *hc.Ctx, class string) *Doc {
 	}
 
 	if d.VB != nil && (d.W != nil && d.W.Unit != "%" && d.VB[0] >= d.VB[2] || d.H != nil && d.H.Unit != "%" && d.VB[1] >= d.VB[3]) {
-		// regression class (C19-viewbox-min-ge-size, repaired by fdd9e33): with a width/height attribute, a viewBox whose min-x (min-y)
+		// regression class (C19-viewbox-min-ge-size, repaired by 4deb0ae): with a width/height attribute, a viewBox whose min-x (min-y)
 		// is not below its width (height) must not be taken for missing
 		d.Features["viewbox-min-ge-size"] = true
 	}
